@@ -3,6 +3,8 @@
 -/
 import PycommModel.Identity
 import PycommModel.Target
+import PycommProofs.IDLemmas
+import PycommProofs.CodecWire
 namespace Pycomm.Ident
 open Pycomm.Tgt
 
@@ -23,23 +25,125 @@ def presentModule (id : Identity) : List (Name × PyVal) :=
    (s "serial", .str (hex8 id.serial)),
    (s "product_name", .str (id.name.map (·.toNat)))]
 
+/-! ### helper lemmas -/
+
+/-- the seven members every identity layout shares, followed by `tail` -/
+def idMembers (tail : Members) : Members :=
+  .cons (some [118, 101, 110, 100, 111, 114]) (.int .uint)
+  (.cons (some [112, 114, 111, 100, 117, 99, 116, 95, 116, 121, 112, 101]) (.int .uint)
+  (.cons (some [112, 114, 111, 100, 117, 99, 116, 95, 99, 111, 100, 101]) (.int .uint)
+  (.cons (some [114, 101, 118, 105, 115, 105, 111, 110])
+    (.struct (.cons (some [109, 97, 106, 111, 114]) (.int .usint) (.cons (some [109, 105, 110, 111, 114]) (.int .usint) .nil)))
+  (.cons (some [115, 116, 97, 116, 117, 115]) (.nbytes 2)
+  (.cons (some [115, 101, 114, 105, 97, 108]) (.int .udint)
+  (.cons (some [112, 114, 111, 100, 117, 99, 116, 95, 110, 97, 109, 101]) (.str .usint .latin1) tail))))))
+
+theorem moduleMembers_eq : Gen.moduleIdentityMembers = idMembers .nil := rfl
+
+/-- the raw struct decode of the seven shared members, into any accumulator -/
+theorem decodeMembers_id (id : Identity) (h : IdOk id) (tail : Members) (rest : Bytes) (acc : List (Name × PyVal)) :
+    decodeMembers (idMembers tail) (encIdentity id ++ rest) acc =
+      decodeMembers tail rest
+        (dictSet (dictSet (dictSet (dictSet (dictSet (dictSet (dictSet acc
+          (s "vendor") (.int id.vendor))
+          (s "product_type") (.int id.productType))
+          (s "product_code") (.int id.productCode))
+          (s "revision") (.dict [(s "major", .int id.major), (s "minor", .int id.minor)]))
+          (s "status") (.bytes (leBytes 2 id.status)))
+          (s "serial") (.int id.serial))
+          (s "product_name") (.str (id.name.map (·.toNat)))) := by
+  obtain ⟨h1, h2, h3, h4, h5, h6, h7, h8, h9, h10⟩ := h
+  have e : encIdentity id ++ rest =
+      leBytes 2 id.vendor ++ (leBytes 2 id.productType ++ (leBytes 2 id.productCode ++
+        (UInt8.ofNat id.major :: UInt8.ofNat id.minor :: (leBytes 2 id.status ++ (leBytes 4 id.serial ++
+          (UInt8.ofNat id.name.length :: (id.name ++ rest))))))) := by
+    simp [encIdentity, le]
+  rw [e, idMembers,
+    ID.decodeMembers_some _ _ _ _ _ _ _ (ID.decode_uint _ _ h1) rfl,
+    ID.decodeMembers_some _ _ _ _ _ _ _ (ID.decode_uint _ _ h2) rfl,
+    ID.decodeMembers_some _ _ _ _ _ _ _ (ID.decode_uint _ _ h3) rfl,
+    ID.decodeMembers_some _ _ _ _ _ _ _ (ID.decode_revision _ _ _ h4 h5) rfl,
+    ID.decodeMembers_some _ _ _ _ _ _ _ (ID.decode_nbytes2 _ _) rfl,
+    ID.decodeMembers_some _ _ _ _ _ _ _ (ID.decode_udint _ _ h7) rfl,
+    ID.decodeMembers_some _ _ _ _ _ _ _ (ID.decode_shortString _ _ h8) rfl]
+  rfl
+
+theorem s_vendor : s "vendor" = [118, 101, 110, 100, 111, 114] := rfl
+theorem s_product_type : s "product_type" = [112, 114, 111, 100, 117, 99, 116, 95, 116, 121, 112, 101] := rfl
+theorem s_product_code : s "product_code" = [112, 114, 111, 100, 117, 99, 116, 95, 99, 111, 100, 101] := rfl
+theorem s_revision : s "revision" = [114, 101, 118, 105, 115, 105, 111, 110] := rfl
+theorem s_status : s "status" = [115, 116, 97, 116, 117, 115] := rfl
+theorem s_serial : s "serial" = [115, 101, 114, 105, 97, 108] := rfl
+theorem s_product_name : s "product_name" = [112, 114, 111, 100, 117, 99, 116, 95, 110, 97, 109, 101] := rfl
+theorem s_major : s "major" = [109, 97, 106, 111, 114] := rfl
+theorem s_minor : s "minor" = [109, 105, 110, 111, 114] := rfl
+theorem s_state : s "state" = [115, 116, 97, 116, 101] := rfl
+theorem s_epv : s "encap_protocol_version" = [101, 110, 99, 97, 112, 95, 112, 114, 111, 116, 111, 99, 111, 108, 95, 118, 101, 114, 115, 105, 111, 110] := rfl
+theorem s_ip : s "ip_address" = [105, 112, 95, 97, 100, 100, 114, 101, 115, 115] := rfl
+theorem kVendor_eq : kVendor = [118, 101, 110, 100, 111, 114] := rfl
+theorem kProductType_eq : kProductType = [112, 114, 111, 100, 117, 99, 116, 95, 116, 121, 112, 101] := rfl
+theorem kSerial_eq : kSerial = [115, 101, 114, 105, 97, 108] := rfl
+
+theorem listMembers_eq : Gen.listIdentityMembers =
+    .cons none (.int .uint) (.cons none (.int .uint)
+    (.cons (some [101, 110, 99, 97, 112, 95, 112, 114, 111, 116, 111, 99, 111, 108, 95, 118, 101, 114, 115, 105, 111, 110]) (.int .uint)
+    (.cons none (.int .int) (.cons none (.int .uint)
+    (.cons (some [105, 112, 95, 97, 100, 100, 114, 101, 115, 115]) .ipAddr
+    (.cons none (.int .ulint)
+    (idMembers (.cons (some [115, 116, 97, 116, 101]) (.int .usint) .nil)))))))) := rfl
+
+theorem encHeader_length (cmd len session status : Nat) (context : Bytes) (hc : context.length = 8) :
+    (encHeader cmd len session status context).length = 24 := by
+  simp [encHeader, le, RT.leBytes_length, hc]
+
+/-- the struct encoder writes the device's wire form of the (id-valued) dict -/
+theorem encode_module_raw (id : Identity) (h : IdOk id) :
+    encode (.struct Gen.moduleIdentityMembers)
+      (.dict [(s "vendor", .int id.vendor), (s "product_type", .int id.productType),
+              (s "product_code", .int id.productCode),
+              (s "revision", .dict [(s "major", .int id.major), (s "minor", .int id.minor)]),
+              (s "status", .bytes (leBytes 2 id.status)),
+              (s "serial", .int id.serial),
+              (s "product_name", .str (id.name.map (·.toNat)))]) = .ok (encIdentity id) := by
+  obtain ⟨h1, h2, h3, h4, h5, h6, h7, h8, h9, h10⟩ := h
+  have e : encIdentity id =
+      leBytes 2 id.vendor ++ (leBytes 2 id.productType ++ (leBytes 2 id.productCode ++
+        ([UInt8.ofNat id.major, UInt8.ofNat id.minor] ++ (leBytes 2 id.status ++ (leBytes 4 id.serial ++
+          (UInt8.ofNat id.name.length :: id.name ++ [])))))) := by
+    simp [encIdentity, le]
+  rw [e, moduleMembers_eq]
+  simp only [s_vendor, s_product_type, s_product_code, s_revision, s_status, s_serial, s_product_name, s_major, s_minor]
+  apply ID.encode_struct_dict
+  exact
+    ID.encodeMembersDict_some _ _ _ _ _ _ _ (by simp [dictGet]) (ID.encode_uint _ h1)
+    (ID.encodeMembersDict_some _ _ _ _ _ _ _ (by simp [dictGet]) (ID.encode_uint _ h2)
+    (ID.encodeMembersDict_some _ _ _ _ _ _ _ (by simp [dictGet]) (ID.encode_uint _ h3)
+    (ID.encodeMembersDict_some _ _ _ _ _ _ _ (by simp [dictGet]) (ID.encode_revision _ _ h4 h5)
+    (ID.encodeMembersDict_some _ _ _ _ _ _ _ (by simp [dictGet]) (ID.encode_nbytes2 _)
+    (ID.encodeMembersDict_some _ _ _ _ _ _ _ (by simp [dictGet]) (ID.encode_udint _ h7)
+    (ID.encodeMembersDict_some _ _ _ _ _ _ _ (by simp [dictGet]) (ID.encode_shortString _ h8)
+    (ID.encodeMembersDict_nil _)))))))
+
 -- PROPERTY THEOREMS
 
 /-- the serial number is always 8 lower-case hex digits that read back as the number -/
-theorem hex8_spec (n : Nat) (h : n < 2 ^ 32) : (hex8 n).length = 8 ∧ parseHex (hex8 n) = some n := by
-  sorry
+theorem hex8_spec (n : Nat) (h : n < 2 ^ 32) : (hex8 n).length = 8 ∧ parseHex (hex8 n) = some n :=
+  ⟨ID.hex8_length n h, ID.hex8_parse n⟩
 
 /-- unknown ids map to "UNKNOWN", known ids to the table's name -/
 theorem lookupId_spec (k : Nat) (tbl : List (Nat × Name)) :
-    (lookupId k tbl = unknown ∧ ∀ e ∈ tbl, e.1 ≠ k) ∨ (∃ e ∈ tbl, e.1 = k ∧ lookupId k tbl = e.2) := by
-  sorry
+    (lookupId k tbl = unknown ∧ ∀ e ∈ tbl, e.1 ≠ k) ∨ (∃ e ∈ tbl, e.1 = k ∧ lookupId k tbl = e.2) :=
+  ID.lookupId_spec k tbl
 
 /-- an Identity object (Get_Attributes_All reply, CIP Vol 1 5-2) decodes to exactly the device's fields,
     whatever follows it in the buffer — for every field value.  The member layout is the one the source
     declares now (regenerated): swapping two members in the source breaks this proof. -/
 theorem module_identity_decode_spec (id : Identity) (h : IdOk id) (rest : Bytes) :
     decodeModuleIdentity (encIdentity id ++ rest) = .ok (.dict (presentModule id), rest) := by
-  sorry
+  unfold decodeModuleIdentity
+  rw [moduleMembers_eq, ID.decode_struct _ _ _ _ (by rw [decodeMembers_id id h, ID.decodeMembers_nil])]
+  simp only [s_vendor, s_product_type, s_product_code, s_revision, s_status, s_serial, s_product_name, s_major, s_minor, presentModule]
+  simp [dictSet, postprocess, dictGet, kVendor_eq, kProductType_eq, kSerial_eq]
 
 /-- the ListIdentity reply of a device: the identity item decodes (from byte 26 of the frame) to the same
     fields plus protocol version, IP address and state -/
@@ -49,7 +153,49 @@ theorem list_identity_decode_spec (id : Identity) (h : IdOk id) (session : Nat) 
       some (.dict ([(s "encap_protocol_version", .int 1),
                     (s "ip_address", .str (renderIPv4 ((leBytes 4 id.ip).reverse)))] ++
                    presentModule id ++ [(s "state", .int id.state)])) := by
-  sorry
+  obtain ⟨L, hL⟩ : ∃ L, listIdentityBody id = leBytes 2 1 ++ (leBytes 2 0xC ++ (leBytes 2 L ++ (leBytes 2 1 ++
+      ([0, 2] ++ ([0xAF, 0x12] ++ ((leBytes 4 id.ip).reverse ++ (List.replicate 8 0 ++
+        (encIdentity id ++ [UInt8.ofNat id.state])))))))) := by
+    refine ⟨(le 2 1 ++ ([0x00, 0x02] ++ [0xAF, 0x12] ++ (le 4 id.ip).reverse ++ List.replicate 8 0) ++
+      encIdentity id ++ [UInt8.ofNat id.state]).length, ?_⟩
+    simp [listIdentityBody, le]
+  have hdrop : (frame Encap.CMD_LIST_IDENTITY session 0 context (listIdentityBody id)).drop 26 =
+      leBytes 2 0xC ++ (leBytes 2 L ++ (leBytes 2 1 ++
+      ([0, 2] ++ ([0xAF, 0x12] ++ ((leBytes 4 id.ip).reverse ++ (List.replicate 8 0 ++
+        (encIdentity id ++ [UInt8.ofNat id.state]))))))) := by
+    unfold frame
+    generalize (listIdentityBody id).length = len
+    rw [hL, ← List.append_assoc]
+    exact RT.drop_append_len _ _ 26 (by simp [encHeader_length _ _ _ _ _ hc, RT.leBytes_length])
+  have hdec : decodeMembers Gen.listIdentityMembers
+      ((frame Encap.CMD_LIST_IDENTITY session 0 context (listIdentityBody id)).drop 26) [] = .ok
+        (dictSet (dictSet (dictSet (dictSet (dictSet (dictSet (dictSet (dictSet (dictSet (dictSet []
+          (s "encap_protocol_version") (.int 1))
+          (s "ip_address") (.str (renderIPv4 ((leBytes 4 id.ip).reverse))))
+          (s "vendor") (.int id.vendor))
+          (s "product_type") (.int id.productType))
+          (s "product_code") (.int id.productCode))
+          (s "revision") (.dict [(s "major", .int id.major), (s "minor", .int id.minor)]))
+          (s "status") (.bytes (leBytes 2 id.status)))
+          (s "serial") (.int id.serial))
+          (s "product_name") (.str (id.name.map (·.toNat))))
+          (s "state") (.int id.state), []) := by
+    rw [hdrop, listMembers_eq,
+      ID.decodeMembers_none _ _ _ _ _ _ (decode_int_wire .uint (leBytes 2 _) _ (RT.leBytes_length 2 _)),
+      ID.decodeMembers_none _ _ _ _ _ _ (decode_int_wire .uint (leBytes 2 _) _ (RT.leBytes_length 2 _)),
+      ID.decodeMembers_some _ _ _ _ _ _ _ (ID.decode_uint 1 _ (by omega)) rfl,
+      ID.decodeMembers_none _ _ _ _ _ _ (decode_int_wire .int [0, 2] _ rfl),
+      ID.decodeMembers_none _ _ _ _ _ _ (decode_int_wire .uint [0xAF, 0x12] _ rfl),
+      ID.decodeMembers_some _ _ _ _ _ _ _ (ID.decode_ip _ _ (by simp [RT.leBytes_length])) rfl,
+      ID.decodeMembers_none _ _ _ _ _ _ (decode_int_wire .ulint (List.replicate 8 0) _ rfl),
+      decodeMembers_id id h,
+      ID.decodeMembers_some _ _ _ _ _ _ _ (ID.decode_usint _ _ h.2.2.2.2.2.2.2.2.1) rfl,
+      ID.decodeMembers_nil]
+    rfl
+  unfold parseListIdentity decodeListIdentity
+  rw [ID.decode_struct _ _ _ _ hdec]
+  simp only [s_vendor, s_product_type, s_product_code, s_revision, s_status, s_serial, s_product_name, s_major, s_minor, s_state, s_epv, s_ip, presentModule]
+  simp [dictSet, postprocess, dictGet, kVendor_eq, kProductType_eq, kSerial_eq]
 
 /-- encoding a presented identity with a known vendor and product type and decoding it again is the identity -/
 theorem identity_encode_decode (id : Identity) (h : IdOk id)
@@ -60,6 +206,24 @@ theorem identity_encode_decode (id : Identity) (h : IdOk id)
                 lookupId i Gen.productTypes = lookupId id.productType Gen.productTypes ∧ i < 65536) :
     ∃ bs, encodeModuleIdentity (.dict (presentModule id)) = .ok bs ∧
       decodeModuleIdentity bs = .ok (.dict (presentModule id), []) := by
-  sorry
+  have _ := hv; have _ := hp   -- (not needed: `hvr` / `hpr` already carry the ids)
+  obtain ⟨vi, hv1, hv2, hv3⟩ := hvr
+  obtain ⟨pi, hp1, hp2, hp3⟩ := hpr
+  have hok : IdOk { id with vendor := vi, productType := pi } := by
+    obtain ⟨h1, h2, h3, h4, h5, h6, h7, h8, h9, h10⟩ := h
+    exact ⟨hv3, hp3, h3, h4, h5, h6, h7, h8, h9, h10⟩
+  have hpres : presentModule { id with vendor := vi, productType := pi } = presentModule id := by
+    simp only [presentModule, hv2, hp2]
+  have hlen : ((hex8 id.serial).length % 2 == 0) = true := by
+    rw [ID.hex8_length id.serial h.2.2.2.2.2.2.1]; rfl
+  refine ⟨encIdentity { id with vendor := vi, productType := pi }, ?_, ?_⟩
+  · rw [← encode_module_raw _ hok]
+    unfold encodeModuleIdentity
+    simp only [presentModule, s_vendor, s_product_type, s_product_code, s_revision, s_status, s_serial,
+      s_product_name, s_major, s_minor, kVendor_eq, kProductType_eq, kSerial_eq]
+    simp [dictGet, dictSet, hv1, hp1, hlen, ID.hex8_parse]
+  · have := module_identity_decode_spec _ hok []
+    rw [hpres] at this
+    simpa using this
 
 end Pycomm.Ident
